@@ -126,7 +126,9 @@ class C04(World):
             op["cls"], op["matrix"] = self._gen_matrix(rng, kind)
             op["cls_b"], op["matrix_b"] = self._gen_matrix(rng, kind)
             if k == "apply_scale":
-                op["scale"] = rng.choice([round(mx.rand_scale(rng), 4), [round(mx.rand_scale(rng), 3) for _ in range(3)], -round(mx.rand_scale(rng), 3)])
+                k_ = round(mx.rand_scale(rng), 3)
+                op["scale"] = rng.choice([round(mx.rand_scale(rng), 4), [round(mx.rand_scale(rng), 3) for _ in range(3)], -round(mx.rand_scale(rng), 3),
+                                          [1.0, 1.0, k_], [k_, 1.0, 1.0], [1.0, -1.0, 1.0], [-1.0, k_, 1.0]])
             if k == "apply_translation":
                 op["vec"] = mx.rand_translation(rng).tolist()
             if k == "bad_shape":
